@@ -722,6 +722,7 @@ class C11(World):
                         rec = wrappers[st["w"] % len(wrappers)]
                         w = rec["obj"]
                         fpb = fp()
+                        snap_ = snapshot(rec["data"]) if rec.get("data") is not None else None
                         try:  # the read-only surface of the wrapper
                             repr(w)
                             w.problem_data
@@ -736,6 +737,12 @@ class C11(World):
                         tick("module_state")
                         if d:
                             V("module_state", d[0], step, f"module state differs after reading the wrapper's properties: {d[:3]}")
+                        if snap_ is not None:
+                            tick("input_unchanged")
+                            now_ = snapshot(rec["data"])
+                            if now_ != snap_:
+                                paths = sorted(_gen_paths(snap_, now_))
+                                V("input_unchanged", "wrapper_accessors:" + ",".join(paths[:3]), step, f"reading the wrapper's properties / to_problem_json() changed the caller's input at {paths[:5]}")
                         check_held(step, skip_last=False)
                         probe("wrapper_read_only_surface")
                 elif op in ("wtarget", "wexport"):
